@@ -12,7 +12,7 @@ MIN_NONTRIVIAL = {"quick": 900, "thorough": 15000}
 REQUIRED = ["finite real >=0 (never NaN)", "d^2 == k(F,F)+k(G,G)-2k(F,G)", "reorder=>0", "symmetric", "triangle",
             "diagonal points ignored", "diagonal translation", "d <= W1/(4 sigma sqrt(pi))",
             "integer / list forms agree with float arrays in both argument positions"]
-RULE = ("pairs/triples of finite diagrams, 0-40 points (quick <=25; 4% of cases up to 90): identical multisets in different order, copies with "
+RULE = ("pairs/triples of finite diagrams, 0-40 points (quick <=25; 4% of cases up to 90; ~1% with 127-300 points): identical multisets in different order, copies with "
         "1e-9..1e-3 jitter, independent, disjoint supports, empty vs non-empty, near-diagonal points; sigma in "
         "{0.01,0.1,0.4,1,10}; scales 1e-2..1e2; array/list/int forms. non-trivial = both diagrams have >=2 points; "
         "distinct = digest of (pair, sigma); the reorder and near-identical classes must both be non-empty")
@@ -60,9 +60,13 @@ def gen_pair(rng, tier):
     top = 25 if tier == "quick" else 40
     if rng.random() < 0.04:
         top = 90       # a few larger diagrams: size-dependent behaviour (chunking, truncation) must not hide
+    big = rng.random() < (0.012 if tier == "quick" else 0.02)
     style = str(rng.choice(["reorder", "jitter", "indep", "disjoint", "empty", "neardiag", "grid"]))
     scale = float(rng.choice([1e-2, 0.1, 1, 1, 1, 10, 1e2]))
     m = int(rng.integers(1, top + 1))
+    if big:         # sizes around and above 128 / 256 (block sizes of vectorised implementations)
+        m = int(rng.choice([127, 128, 129, 130, 200, 257]))
+        top = 130
     F = gen.diagram(rng, m, str(rng.choice(["float", "cluster", "dyadic"])), scale)
     if style == "reorder":
         G = F[rng.permutation(m)]
@@ -116,6 +120,8 @@ def run_case(ctx, k, rng):
     if style == "reorder":
         ctx.check("reorder=>0", v * v <= tol2, got=v, tol2=tol2)
 
+    if max(len(F), len(G)) > 100:
+        return          # large diagrams: the value clauses above are what they are for (python double loop: seconds per call)
     # representation: an integer-valued diagram as int array / list of python ints, in either argument position, mixed with a
     # float diagram, must give the value of the equal-valued float arrays
     if rng.random() < 0.2 and len(F) and len(G):
